@@ -282,6 +282,12 @@ func (vr *variableResolver) resolve(ctx *ExecutionContext) (*Value, error) {
 		} else {
 			// Next parts, resolve it from current
 
+			if current.Kind() == reflect.Ptr && current.IsNil() {
+				// A nil along the way yields the empty value. (Looking up a method
+				// on a nil pointer would call it with a nil receiver and panic.)
+				return AsValue(nil), nil
+			}
+
 			// Before resolving the pointer, let's see if we have a method to call
 			// Problem with resolving the pointer is we're changing the receiver
 			isFunc := false
